@@ -518,28 +518,38 @@ func (c *c19) sweep(w *sim.World, idx int) *Viol {
 			// large registries: the boundary page sizes and the default page size of the SDK
 			sizes = []int{1, 2, 7, 50, 99, 100, 101, n - 1, n, n + 1}
 		}
+		if n > 1000 {
+			sizes = bigSizes(n)
+		}
 		for _, size := range sizes {
 			for _, reverse := range []bool{false, true} {
-				// key-cursor mode
+				// key-cursor mode, without and with count_total (the SDK ignores the flag once a key is given; the
+				// pages must not depend on it)
 				var got []string
-				var key []byte
-				for page := 0; page <= n+1; page++ {
-					items, pr, ok := fn(w, &query.PageRequest{Key: key, Limit: uint64(size), Reverse: reverse})
-					if !ok {
-						return viol("C19", idx, name+" list query (key mode)", "answer", "error")
+				for _, ct := range []bool{false, true} {
+					if ct && n > 20 && n <= 1000 && size%2 == 0 {
+						continue
 					}
-					if len(items) > size {
-						return viol("C19", idx, fmt.Sprintf("%s page larger than the requested size %d", name, size), size, len(items))
+					got = nil
+					var key []byte
+					for page := 0; page <= n+1; page++ {
+						items, pr, ok := fn(w, &query.PageRequest{Key: key, Limit: uint64(size), Reverse: reverse, CountTotal: ct})
+						if !ok {
+							return viol("C19", idx, name+" list query (key mode)", "answer", "error")
+						}
+						if len(items) > size {
+							return viol("C19", idx, fmt.Sprintf("%s page larger than the requested size %d", name, size), size, len(items))
+						}
+						got = append(got, items...)
+						if pr == nil || len(pr.NextKey) == 0 {
+							break
+						}
+						key = pr.NextKey
 					}
-					got = append(got, items...)
-					if pr == nil || len(pr.NextKey) == 0 {
-						break
+					sort.Strings(got)
+					if fmt.Sprint(got) != fmt.Sprint(exp) {
+						return viol("C19", idx, fmt.Sprintf("%s paginated by key cursor, page size %d, reverse=%v, count_total=%v: every entry exactly once", name, size, reverse, ct), exp, got)
 					}
-					key = pr.NextKey
-				}
-				sort.Strings(got)
-				if fmt.Sprint(got) != fmt.Sprint(exp) {
-					return viol("C19", idx, fmt.Sprintf("%s paginated by key cursor, page size %d, reverse=%v: every entry exactly once", name, size, reverse), exp, got)
 				}
 				// offset mode with total
 				got = nil
